@@ -8,7 +8,7 @@ HOOK_COMMITS = ["4ce865f"]
 CHECKS = {
  "C01": ("exploration",
    "runtime monitor: slashability oracle over released signatures of seeded hostile histories (+ record-before-sign assertion at the account boundary)",
-   "Every signature released by the real signer stack over tens of thousands of generated requests (single/batch, by name/by key/by over-long key, duplicate keys, epochs incl. >= 2^63, restarts, GOMAXPROCS cycled 1..61 because batches are partitioned over workers) is verified cryptographically, attributed to (key, data) and compared pairwise with all earlier releases for that key using the consensus-spec double-vote/surround predicates. The histories also ask the generic endpoints (single and multisign, slashable entries hidden among harmless ones) to sign the roots of conflicting messages under the slashable domain; any signature that comes back joins the released set. A wire slice repeats the workload over TLS/gRPC against the real daemon with SIGKILL restarts. Held on the histories explored; not a proof for all histories.",
+   "Every signature released by the real signer stack over tens of thousands of generated requests (single/batch, by name/by key/by over-long key, duplicate keys, epochs incl. >= 2^63, restarts, GOMAXPROCS cycled 1..61 because batches are partitioned over workers) is verified cryptographically, attributed to (key, data) and compared pairwise with all earlier releases for that key using the consensus-spec double-vote/surround predicates. The histories also ask the generic endpoints (single and multisign, slashable entries hidden among harmless ones) to sign the roots of conflicting messages under the slashable domain; any signature that comes back joins the released set. Batches of 1025 and 2049 entries (thorough: up to 3100) are sent advancing, conflicting and conflicting after a restart. A wire slice repeats the workload over TLS/gRPC against the real daemon with SIGKILL restarts. Held on the histories explored; not a proof for all histories.",
    "Trusted: the harness's SSZ/signing-root code (cross-checked by verifying Dirk's own signatures), herumi BLS verification, the synthetic account/fetcher standing in for wallet files.",
    "5/C01"),
  "C02": ("exploration",
@@ -18,17 +18,17 @@ CHECKS = {
    "5/C02"),
  "C04": ("exploration",
    "runtime monitor: porcupine linearizability check of concurrent histories recorded at the signer boundary against Dirk's learned sequential semantics; slashability oracle; race detector; hook-steered overlaps",
-   "Short, heavily contended concurrent histories (single and batch requests over 3 shared keys) are recorded at the signer.Service boundary with call/return stamps and, together with a final state read, checked by porcupine against an unpartitioned multi-key model whose step function is the real rules' single-threaded behaviour. A verifhook handler parks requests between their read and write while a rival is in flight so that broken locking becomes an overlap. Some requests are abandoned by their client (context cancelled) exactly between their read and their write; a FAILED/UNKNOWN answer is modelled as an indeterminate operation that stays open (nondeterministic porcupine model). A wire slice records histories over TLS/gRPC against the real daemon and takes the final reads from its database after it stops. The same workload runs under the Go race detector. Held on the interleavings observed (thousands of overlapping same-key pairs per run), not on all schedules.",
+   "Short, heavily contended concurrent histories (single and batch requests over 3 shared keys) are recorded at the signer.Service boundary with call/return stamps and, together with a final state read, checked by porcupine against an unpartitioned multi-key model whose step function is the real rules' single-threaded behaviour. A verifhook handler parks requests between their read and write while a rival is in flight so that broken locking becomes an overlap. An independent-clients phase runs 12 clients side by side, each sequential on two private keys and judged against the sequential specification, so that state shared below the per-key locks becomes visible. Some requests are abandoned by their client (context cancelled) exactly between their read and their write; a FAILED/UNKNOWN answer is modelled as an indeterminate operation that stays open (nondeterministic porcupine model). A wire slice records histories over TLS/gRPC against the real daemon and takes the final reads from its database after it stops. The same workload runs under the Go race detector. Held on the interleavings observed (thousands of overlapping same-key pairs per run), not on all schedules.",
    "Trusted: porcupine v1.3.0; the learned table (real code run sequentially); monotonic clock stamps taken outside the call.",
    "5/C04"),
  "C05": ("exploration",
    "runtime monitor: domain-type / admin-IP oracle over all five signing endpoints at service and handler boundaries",
-   "Thousands of requests covering endpoint x domain-type class (incl. look-alikes and lengths != 32 over the wire) x admin-IP list x source address class x batch position; a wire slice drives the real daemon with server.rules.admin-ips set while the client binds different loopback source addresses (real SourceIP interceptor); the monitor asserts that generic/multi never return a signature under attester/proposer types (nor one that verifies under them), exits only from listed addresses, and that the protected endpoints refuse foreign types without touching stored state.",
+   "Thousands of requests covering endpoint x domain-type class (incl. look-alikes and lengths != 32 over the wire) x admin-IP list x source address class x batch position; a wire slice drives the real daemon with server.rules.admin-ips set while the client binds different loopback source addresses (real SourceIP interceptor); multisign batches repeat the same data under several domains; the monitor asserts that generic/multi never return a signature under attester/proposer types (nor one that verifies under them or under the restricted domain another entry of the request carried), exits only from listed addresses, and that the protected endpoints refuse foreign types without touching stored state.",
    "Trusted: harness signing-root code; the IP in the credentials stands in for the SourceIP interceptor at the in-process boundary.",
    "5/C05"),
  "C08": ("exploration",
    "runtime monitor: independent BLS verification of every returned signature over harness-computed signing roots, across batch sizes x GOMAXPROCS; race detector on batch paths",
-   "Every signature returned for well-formed random requests (single and batches of 24 sizes from 1 to 511, GOMAXPROCS 1..61, service and handler boundary, by name/key/over-long key) is verified with herumi directly under the addressed account's key over a signing root computed by the harness's own SSZ code, and must not verify under a neighbouring account of the batch; response lengths must equal request lengths; batches also carry marker entries (attestations no rule can approve) whose positions must keep their own negative verdict. Batch paths also run under the race detector.",
+   "Every signature returned for well-formed random requests (single and batches of 24 sizes from 1 to 511, GOMAXPROCS 1..61, service and handler boundary, by name/key/over-long key) is verified with herumi directly under the addressed account's key over a signing root computed by the harness's own SSZ code, and must not verify under a neighbouring account of the batch; response lengths must equal request lengths; multisign batches repeat data across entries under different domains; batches also carry marker entries (attestations no rule can approve) whose positions must keep their own negative verdict. Batch paths also run under the race detector.",
    "Trusted: harness SSZ code, herumi VerifyByte.",
    "5/C08"),
  "C09": ("exploration",
@@ -43,7 +43,7 @@ CHECKS = {
    "5/C03"),
  "C06": ("fault_enumeration",
    "fault injection at every dependency seam (interposers + verifhook + undecodable records + OS-level write failure + closed store) with a per-position signature-iff-SUCCEEDED oracle",
-   "Every single fault of 23 kinds is injected for each of the five request kinds, batch sizes {1,2,5,17} and every position, at service and handler boundary; then seeded multi-fault sequences, a handler-only matrix over a stub signer, a closed store, a store closed under load (child; signatures that left it are re-verified against the reopened store) and a value log whose descriptor is made unwritable. The oracle: signature iff SUCCEEDED at every position and no signature where a fault fired. A fault whose injector never fired fails the run as inconclusive.",
+   "Every single fault of 23 kinds is injected for each of the five request kinds, batch sizes {1,2,5,17} and every position, at service and handler boundary; then seeded multi-fault sequences, a handler-only matrix over a stub signer, a closed store, a store closed under load (child; signatures that left it are re-verified against the reopened store), a value log whose descriptor is made unwritable, and arguments that cannot be decided handed to the real signer service and ruler (absent credentials, data, checkpoints, identifiers; unknown actions; data of the wrong type). The oracle: signature iff SUCCEEDED at every position and no signature where a fault fired. A fault whose injector never fired fails the run as inconclusive.",
    "Faults are those producible through exported interfaces, the storage hook and the OS; values outside the four rule results are not injected.",
    "5/C06"),
  "C07": ("exploration",
@@ -58,12 +58,12 @@ CHECKS = {
    "5/C10"),
  "C11": ("exploration",
    "runtime monitor: export vs signed-history maxima; CLI export->import round trip and restart compared by identical probe sequences; legacy gob records vs specification",
-   "Histories of real decisions, then in-process and CLI exports must equal the maxima signed; the export is imported by the CLI into an empty instance; the restarted original and the re-imported instance answer the same shuffled probe grid around every watermark identically and as the sequential specification demands; stores pre-populated with legacy gob records must export and decide like the specification seeded with those values; stores of 75..1000 keys (beyond one iterator batch) and opaque non-BLS keys are included.",
+   "Histories of real decisions, then in-process and CLI exports must equal the maxima signed; the export is imported by the CLI into an empty instance; the restarted original and the re-imported instance answer the same shuffled probe grid around every watermark identically and as the sequential specification demands; stores pre-populated with legacy gob records must export and decide like the specification seeded with those values; stores of 75..1000 keys (beyond one iterator batch), opaque non-BLS keys and histories that go through the batch rule with refusable entries are included.",
    "Legacy records are gob encodings of structs with the historical field names.",
    "5/C11"),
  "C15": ("exploration",
    "runtime monitor: shadow wait-for graph on an interposed locker with cycle detection, directed schedule steering, stress with injected yields, progress watchdog, race detector",
-   "Liveness is restated as no wait-for cycle + bounded progress. Pairs of batches over ordered key selections are steered (A parked after its i-th lock until B reaches its j-th or a budget expires) for every position pair; 32 goroutines add random load with yields inside the interposer; a cycle found in the shadow graph is a proved deadlock; requests are also abandoned by their client while queued. A second child uses the real account fetcher: by-key single and batch requests over accounts created after start-up while accounts are being registered, with a 10 s no-progress watchdog; both children also run under the race detector. A finite run cannot decide liveness in general.",
+   "Liveness is restated as no wait-for cycle + bounded progress. Pairs of batches over ordered key selections are steered (A parked after its i-th lock until B reaches its j-th or a budget expires) for every position pair; 32 goroutines add random load with yields inside the interposer; a cycle found in the shadow graph is a proved deadlock; requests are also abandoned by their client while queued, and one storage operation in 41 fails during the load phase (a failing request must still finish and release its locks). A second child uses the real account fetcher: by-key single and batch requests over accounts created after start-up while accounts are being registered, with a 10 s no-progress watchdog; both children also run under the race detector. A finite run cannot decide liveness in general.",
    "Shadow holds are recorded after acquisition and cleared before release, so a shadow cycle is a real one.",
    "5/C15"),
  "C12": ("exploration",
@@ -78,7 +78,7 @@ CHECKS = {
    "5/C13"),
  "C14": ("exploration",
    "runtime monitor: valid-partial-signature counting over exhaustive / sampled routings of conflicting duty pairs across real instances of a distributed account",
-   "For every (n,t) that generation accepts on clusters of 2..4 instances (each with its own slashing database), four kinds of conflicting duty pairs are routed to the instances in every combination of {none, D1, D2, both orders, concurrently, second duty hidden in a two-entry batch}; partial signatures are verified under the share keys; both duties must never reach t, and a duty that does must recover to a signature valid under the composite key.",
+   "For every (n,t) that generation accepts on clusters of 2..4 instances (each with its own slashing database), four kinds of conflicting duty pairs are routed to the instances in every combination of {none, D1, D2, both orders, concurrently, second duty hidden in a two-entry batch, first duty inside a batch, a stale refusable attestation in between, second duty by over-long key}; partial signatures are verified under the share keys; both duties must never reach t, and a duty that does must recover to a signature valid under the composite key.",
    "All t for each n are attempted so that a weakened threshold bound would be exercised.",
    "5/C14"),
  "C16": ("exploration",
@@ -97,13 +97,13 @@ CHECKS = {
    "Completeness uses the narrowest reading of 'matches'.",
    "5/C18"),
  "C19": ("exploration",
-   "runtime monitor on the real daemon over TLS/gRPC: 16 methods x 16 caller credential kinds x 2 CA configurations, with state-effect check on the stopped daemon's directories",
-   "Every RPC of every registered service is called on a real dirk child process with certificates generated at run time; callers without a certificate from the configured authority must obtain nothing and change nothing, accepted callers get exactly what the permission table gives their subject common name (SAN and extra chain certificates must not count). Hostile certificates (self-signed, other authority, expired / not yet valid of each origin, server-only usage) are force-sent so that the server decides; a host trust store holding the other authority and source-port reuse by a different client are covered.",
+   "runtime monitor on the real daemon over TLS/gRPC: 16 methods x 16 caller credential kinds x 2 CA configurations, plus forged session tickets, with state-effect check on the stopped daemon's directories",
+   "Every RPC of every registered service is called on a real dirk child process with certificates generated at run time; callers without a certificate from the configured authority must obtain nothing and change nothing, accepted callers get exactly what the permission table gives their subject common name (SAN and extra chain certificates must not count). Hostile certificates (self-signed, other authority, expired / not yet valid of each origin, server-only usage) are force-sent so that the server decides; a host trust store holding the other authority, source-port reuse by a different client, and TLS session resumption with tickets the caller minted itself under guessable keys are covered.",
    "Loopback TCP; state effects read after the daemon stops.",
    "5/C19"),
  "C20": ("exploration",
    "crash monitor: structure-aware hostile inputs + byte mutations against the real handlers (child process, inputs logged first, 8 GiB address-space cap) and against the real daemon over the wire, with canaries",
-   "Tens of thousands of hostile requests for all 16 methods; a process death, an unanswered canary or an input unanswered for 45 s is a violation attributed to the last logged input; a concurrent phase mixes listing, account creation, signing and locking (in-process, over the wire and under the race detector).",
+   "Tens of thousands of hostile requests for all 16 methods; a process death, an unanswered canary or an input unanswered for 45 s is a violation attributed to the last logged input; a concurrent phase mixes listing, account creation, signing and locking (in-process, over the wire and under the race detector). A panic in the goroutine serving a request in-process makes the input a candidate that is replayed against the real daemon, which decides; inputs of earlier findings are replayed in every run; text-shaped fields get malformed-Unicode generators.",
    "A crash means process death or a failed canary; an error reply is fine.",
    "5/C20"),
 }
